@@ -703,7 +703,10 @@ def call(
         step_inp = [executable, *su_inp_paths]
     else:
         # dumpns(do_amend=True) calls amend(out=args_file) before writing.
-        dumpns(su_args_file, forwarded)
+        # Like every other path of the new step, the arguments file is relative to the step's
+        # working directory, where the command looks for it, while dumpns() writes relative to
+        # the working directory of the caller.
+        dumpns(su_workdir / su_args_file, forwarded)
         command = f"{shlex.quote(executable)} {function} --inp={shlex.quote(su_args_file)}"
         step_inp = [executable, *su_inp_paths, su_args_file]
 
